@@ -34,8 +34,9 @@ func PureLibrary(name string) bool {
 
 // RetInfo is one return of the entry function.
 type RetInfo struct {
-	Pred bdd.Node
-	Val  Value
+	Pred  bdd.Node
+	Val   Value
+	State *State // the store at the return (after the deferred calls)
 }
 
 // SiteLog records the value-based verdicts on one potentially panicking instruction.
@@ -365,6 +366,10 @@ func (in *Interp) zero(t types.Type) Value {
 		return &Slice{Nil: bdd.True, Len: in.C.Const(in.intWidth(), 0)}
 	case *types.Map:
 		return &Map{Nil: bdd.True}
+	case *types.Signature:
+		return &FuncV{} // the nil function value
+	case *types.Chan:
+		return &Opaque{Why: "chan:nil"}
 	case *types.Struct:
 		s := &Struct{}
 		for i := 0; i < u.NumFields(); i++ {
@@ -430,6 +435,9 @@ func (in *Interp) Load(st *State, pv Value, t types.Type, pos token.Pos) Value {
 		}
 		ri := in.roots[p.Root]
 		if ri == nil {
+			ri = in.lateGlobalRoot(p.Root)
+		}
+		if ri == nil {
 			in.undecided(pos, "load through pointer with unknown root %q", p.Root)
 		}
 		return in.loadAt(st, p.Root, ri, p.Path, t)
@@ -467,7 +475,7 @@ func (in *Interp) loadAt(st *State, root string, ri *rootInfo, path string, t ty
 			return s
 		}
 	}
-	if in.SharedRoots[root] && in.SharedLoad != nil {
+	if in.SharedLoad != nil && in.sharedCell(in.SharedRoots, root, path) {
 		w, _, _ := in.width(t)
 		return in.SharedLoad(root, path, w)
 	}
@@ -483,8 +491,12 @@ func (in *Interp) Store(st *State, pv Value, t types.Type, v Value, g bdd.Node, 
 	switch p := pv.(type) {
 	case *Ptr:
 		in.site("nil dereference (store)", p.Nil)
-		if in.WatchStores[p.Root] && !in.selfStore(st, p, v) {
-			in.T.Emit(in.C.M.And(in.curPred, g), "shared.store", p.Root, nil, 0, in.P.Pos(pos))
+		if in.sharedCell(in.WatchStores, p.Root, p.Path) && !in.selfStore(st, p, v) {
+			cell := p.Root
+			if p.Path != "" {
+				cell += "|" + p.Path
+			}
+			in.T.Emit(in.C.M.And(in.curPred, g), "shared.store", cell, nil, 0, in.P.Pos(pos))
 		}
 		if p.Nil == bdd.True {
 			in.undecided(pos, "store through a nil pointer")
@@ -498,6 +510,9 @@ func (in *Interp) Store(st *State, pv Value, t types.Type, v Value, g bdd.Node, 
 			return
 		}
 		ri := in.roots[p.Root]
+		if ri == nil {
+			ri = in.lateGlobalRoot(p.Root)
+		}
 		if ri == nil {
 			in.undecided(pos, "store through pointer with unknown root %q", p.Root)
 		}
@@ -938,7 +953,7 @@ func (in *Interp) callBound(fn *ssa.Function, args []Value, bindings []Value, gu
 				}
 				rets = append(rets, retRec{pred, rv, cur})
 				if top {
-					in.TopReturns = append(in.TopReturns, RetInfo{Pred: pred, Val: rv})
+					in.TopReturns = append(in.TopReturns, RetInfo{Pred: pred, Val: rv, State: cur.Clone()})
 				}
 			case *ssa.Panic:
 				in.site("explicit panic", bdd.True)
@@ -1552,7 +1567,7 @@ func (in *Interp) appendBuiltin(args []Value, st *State, x *ssa.Call) (Value, bo
 		return nil, false
 	}
 	if b, ok := st0.Elem().Underlying().(*types.Basic); !ok || b.Kind() != types.Uint8 {
-		return nil, false
+		return in.appendConcrete(args, st, st0.Elem(), x)
 	}
 	a, ok1 := in.RopeOf(st, args[0])
 	if s0, isS := args[0].(*Slice); isS && s0.Nil == bdd.True {
@@ -1582,6 +1597,10 @@ func (in *Interp) unop(fr *frame, x *ssa.UnOp, pred bdd.Node, st *State) Value {
 	v := in.operand(fr, x.X)
 	switch x.Op {
 	case token.MUL:
+		if st0, isStruct := x.Type().Underlying().(*types.Struct); isStruct && st0.NumFields() == 0 {
+			// a value without content (encoding/binary.LittleEndian): nothing is read
+			return &Struct{}
+		}
 		if p, ok := v.(*Ptr); ok && strings.HasPrefix(p.Root, "global:") && !in.NoGlobalEvents && !in.ReadableGlobals[p.Root] {
 			in.T.Emit(pred, "GlobalRead", p.Root, nil, 0, in.P.Pos(x.Pos()))
 		}
@@ -1624,6 +1643,26 @@ func (in *Interp) isNil(v Value, pos token.Pos) bdd.Node {
 		}
 	case *MuxV:
 		return in.C.M.Ite(x.P, in.isNil(x.A, pos), in.isNil(x.B, pos))
+	case *FuncV:
+		if x.Fn == nil {
+			return bdd.True
+		}
+		return bdd.False
+	case *PtrChoice:
+		return bdd.False // addresses of table cells
+	case *Opaque:
+		switch {
+		case x.Why == "chan:nil":
+			return bdd.True
+		case strings.HasPrefix(x.Why, "chan#"):
+			return bdd.False
+		case strings.HasPrefix(x.Why, "done:"):
+			// Done() of a context that can never be cancelled is nil
+			return in.C.Atom("IsNil("+x.Why+")", 1)[0]
+		}
+	}
+	if o, ok := v.(*Opaque); ok {
+		in.undecided(pos, "nil comparison of an unmodelled value (%s)", o.Why)
 	}
 	in.undecided(pos, "nil comparison of %T", v)
 	return bdd.False
@@ -1881,13 +1920,33 @@ func (in *Interp) callInstr(fr *frame, x *ssa.Call, pred bdd.Node, st *State) Va
 			// a function selected by a value (a small table indexed by state):
 			// one call per alternative under its condition, results and states merged
 			if res, ok := in.callAlternatives(mv, args, pred, st, x.Pos()); ok {
+				var each func(v Value)
+				each = func(v Value) {
+					switch y := v.(type) {
+					case *MuxV:
+						each(y.A)
+						each(y.B)
+					case *FuncV:
+						if y.Fn != nil {
+							logDynCall(x, y.Fn)
+						}
+					}
+				}
+				each(mv)
 				return res
 			}
 		}
 		fv, ok := callee.(*FuncV)
-		if !ok || fv.Fn == nil {
+		if ok && fv.Fn == nil {
+			in.site("call of a nil function value", bdd.True)
+			in.undecided(x.Pos(), "call of a nil function value")
+		}
+		if !ok {
+			logDynCall(x, nil)
 			in.undecided(x.Pos(), "dynamic call through a function value that is not resolved to one function")
 		}
+		in.site("call of a nil function value", bdd.False)
+		logDynCall(x, fv.Fn)
 		fn, bindings = fv.Fn, fv.Bindings
 	} else if mc, ok := cc.Value.(*ssa.MakeClosure); ok {
 		if fv, ok := in.operand(fr, mc).(*FuncV); ok {
@@ -1924,7 +1983,7 @@ func (in *Interp) callInstr(fr *frame, x *ssa.Call, pred bdd.Node, st *State) Va
 		name = b.String()
 	}
 	in.Externals[name]++
-	if in.InterpretExternal[name] && fn.Blocks != nil {
+	if (in.InterpretExternal[name] || plainLibraryCode(name)) && fn.Blocks != nil {
 		res, out := in.callBound(fn, args, bindings, pred, st, x.Pos())
 		*st = *out
 		return res
@@ -1938,6 +1997,71 @@ func (in *Interp) callInstr(fr *frame, x *ssa.Call, pred bdd.Node, st *State) Va
 	case "math/bits.OnesCount8", "math/bits.OnesCount16", "math/bits.OnesCount32", "math/bits.OnesCount64", "math/bits.OnesCount":
 		if bv, ok := args[0].(dom.BV); ok {
 			return in.C.PopCount(bv, in.intWidth())
+		}
+	case "math/bits.RotateLeft8", "math/bits.RotateLeft16", "math/bits.RotateLeft32", "math/bits.RotateLeft64", "math/bits.RotateLeft":
+		if bv, ok := args[0].(dom.BV); ok {
+			if kv, ok := args[1].(dom.BV); ok {
+				n := len(bv)
+				if k, isc := kv.IsConst(); isc {
+					// the count is an int: negative counts rotate right
+					sh := int(int64(k<<(64-uint(len(kv)))) >> (64 - uint(len(kv))))
+					sh = ((sh % n) + n) % n
+					out := make(dom.BV, n)
+					for i := 0; i < n; i++ {
+						out[(i+sh)%n] = bv[i]
+					}
+					return out
+				}
+				// symbolic count: only its low log2(n) bits matter (n is a power of two)
+				lg := 0
+				for 1<<uint(lg) < n {
+					lg++
+				}
+				out := bv
+				for b := 0; b < lg; b++ {
+					rot := make(dom.BV, n)
+					for i := 0; i < n; i++ {
+						rot[(i+(1<<uint(b)))%n] = out[i]
+					}
+					out = in.C.Mux(kv[b], rot, out)
+				}
+				return out
+			}
+		}
+	case "math/bits.Reverse8", "math/bits.Reverse16", "math/bits.Reverse32", "math/bits.Reverse64":
+		if bv, ok := args[0].(dom.BV); ok {
+			out := make(dom.BV, len(bv))
+			for i := range bv {
+				out[len(bv)-1-i] = bv[i]
+			}
+			return out
+		}
+	case "math/bits.ReverseBytes16", "math/bits.ReverseBytes32", "math/bits.ReverseBytes64":
+		if bv, ok := args[0].(dom.BV); ok {
+			out := make(dom.BV, 0, len(bv))
+			for i := len(bv)/8 - 1; i >= 0; i-- {
+				out = append(out, bv[8*i:8*i+8]...)
+			}
+			return out
+		}
+	case "math/bits.Add32", "math/bits.Add64", "math/bits.Add", "math/bits.Sub32", "math/bits.Sub64", "math/bits.Sub":
+		if len(args) == 3 {
+			a, ok1 := args[0].(dom.BV)
+			b, ok2 := args[1].(dom.BV)
+			c, ok3 := args[2].(dom.BV)
+			if ok1 && ok2 && ok3 && len(a) == len(b) {
+				// the carry/borrow operand must be 0 or 1 (documented precondition): its bit 0 is used
+				n := len(a)
+				wide := func(x dom.BV) dom.BV { return in.C.Zext(x, n+1) }
+				cin := in.C.Zext(dom.BV{c[0]}, n+1)
+				var r dom.BV
+				if strings.Contains(name, "Add") {
+					r = in.C.Add(in.C.Add(wide(a), wide(b)), cin)
+				} else {
+					r = in.C.Sub(in.C.Sub(wide(a), wide(b)), cin)
+				}
+				return &Tuple{Elems: []Value{r.Slice(0, n), in.C.Zext(dom.BV{r[n]}, n)}}
+			}
 		}
 	case "math/bits.TrailingZeros8", "math/bits.TrailingZeros16", "math/bits.TrailingZeros32", "math/bits.TrailingZeros64", "math/bits.TrailingZeros":
 		if bv, ok := args[0].(dom.BV); ok {
@@ -1988,6 +2112,49 @@ func (in *Interp) callInstr(fr *frame, x *ssa.Call, pred bdd.Node, st *State) Va
 }
 
 func (in *Interp) invoke(recv Value, recvType types.Type, method *types.Func, args []Value, pred bdd.Node, st *State, pos token.Pos) Value {
+	if mv, isMux := recv.(*MuxV); isMux {
+		// an interface holding one of several values depending on state (an
+		// internal interface with one implementation per case): one call per
+		// alternative under its condition, results and states merged
+		type alt struct {
+			g bdd.Node
+			v Value
+		}
+		var alts []alt
+		var walk func(v Value, g bdd.Node)
+		walk = func(v Value, g bdd.Node) {
+			if g == bdd.False {
+				return
+			}
+			if m, ok := v.(*MuxV); ok {
+				walk(m.A, in.C.M.And(g, m.P))
+				walk(m.B, in.C.M.And(g, in.C.M.Not(m.P)))
+				return
+			}
+			alts = append(alts, alt{g, v})
+		}
+		walk(mv, pred)
+		if len(alts) == 0 || len(alts) > 16 {
+			in.undecided(pos, "invoke on a value with %d alternatives", len(alts))
+		}
+		var edges []inEdge
+		var res Value
+		for i, a := range alts {
+			out := st.Clone()
+			in.curPred = a.g
+			r := in.invoke(a.v, recvType, method, args, a.g, out, pos)
+			edges = append(edges, inEdge{nil, a.g, out})
+			if i == 0 || res == nil {
+				res = r
+			} else if r != nil {
+				res = MuxValue(in.C, a.g, r, res)
+			}
+		}
+		_, cur := in.mergeStates(edges)
+		*st = *cur
+		in.curPred = pred
+		return res
+	}
 	iv, ok := recv.(*Iface)
 	if !ok {
 		in.undecided(pos, "invoke on %T", recv)
@@ -2185,8 +2352,8 @@ func (in *Interp) copyBuiltin(args []Value, pred bdd.Node, st *State, x *ssa.Cal
 	n := C.Mux(C.Lt(dst.Len, src.Len, true), dst.Len, src.Len)
 	elemT := x.Call.Args[0].Type().Underlying().(*types.Slice).Elem()
 	ew, _, okw := in.width(elemT)
-	if !okw {
-		return nil, false
+	if !okw && (dst.Sym != "" || src.Sym != "") {
+		return nil, false // symbolic slices are modelled for integer elements only
 	}
 	// concrete destination window of constant length: element-wise
 	if dst.Sym == "" {
@@ -2494,4 +2661,138 @@ func LoopFollowed(fn *ssa.Function) (calls int, always bool) {
 	loopLog.Lock()
 	defer loopLog.Unlock()
 	return loopLog.followed[fn], loopLog.followed[fn] > 0 && loopLog.failed[fn] == 0
+}
+
+// plainLibraryCode: small standard-library functions that are straight-line
+// Go over their arguments (no hidden state, no assembly) and are interpreted
+// like module code.
+func PlainLibraryCode(name string) bool { return plainLibraryCode(name) }
+
+func plainLibraryCode(name string) bool {
+	for _, pre := range []string{"(encoding/binary.littleEndian).", "(encoding/binary.bigEndian)."} {
+		if strings.HasPrefix(name, pre) {
+			switch strings.TrimPrefix(name, pre) {
+			case "Uint16", "Uint32", "Uint64", "PutUint16", "PutUint32", "PutUint64", "AppendUint16", "AppendUint32", "AppendUint64":
+				return true
+			}
+		}
+	}
+	return false
+}
+
+// dynLog records, process-wide, what calls through function values resolved to.
+var dynLog = struct {
+	sync.Mutex
+	targets    map[ssa.CallInstruction]map[*ssa.Function]bool
+	unresolved map[ssa.CallInstruction]bool
+}{targets: map[ssa.CallInstruction]map[*ssa.Function]bool{}, unresolved: map[ssa.CallInstruction]bool{}}
+
+func logDynCall(site ssa.CallInstruction, fn *ssa.Function) {
+	dynLog.Lock()
+	defer dynLog.Unlock()
+	if fn == nil {
+		dynLog.unresolved[site] = true
+		return
+	}
+	if dynLog.targets[site] == nil {
+		dynLog.targets[site] = map[*ssa.Function]bool{}
+	}
+	dynLog.targets[site][fn] = true
+}
+
+// DynTargets: the functions the call site resolved to in every interpreted
+// execution (ok is false when it was never executed or once not resolved).
+func DynTargets(site ssa.CallInstruction) (fns []*ssa.Function, ok bool) {
+	dynLog.Lock()
+	defer dynLog.Unlock()
+	if dynLog.unresolved[site] || len(dynLog.targets[site]) == 0 {
+		return nil, false
+	}
+	for f := range dynLog.targets[site] {
+		fns = append(fns, f)
+	}
+	return fns, true
+}
+
+// lateGlobalRoot registers the root of a package-level variable that is
+// reached through a pointer value (a binding of a closure built by package
+// initialisation) before any instruction named the variable itself.
+func (in *Interp) lateGlobalRoot(root string) *rootInfo {
+	if !strings.HasPrefix(root, "global:") {
+		return nil
+	}
+	if in.ReadableGlobals[root] {
+		in.roots[root] = &rootInfo{}
+	} else {
+		name := strings.TrimPrefix(root, "global:")
+		if i := strings.LastIndex(name, "."); i >= 0 {
+			name = name[i+1:]
+		}
+		in.roots[root] = &rootInfo{Symbolic: true, Prefix: "global " + name}
+	}
+	return in.roots[root]
+}
+
+// sharedCell: the location root|path lies in one of the cells of the set.  A
+// cell is named "root" (the whole object) or "root|path" (the field at path
+// and everything below it).
+func (in *Interp) sharedCell(set map[string]bool, root, path string) bool {
+	if len(set) == 0 {
+		return false
+	}
+	if set[root] {
+		return true
+	}
+	for c := range set {
+		r, p := c, ""
+		if i := strings.IndexByte(c, '|'); i >= 0 {
+			r, p = c[:i], c[i+1:]
+		} else {
+			continue
+		}
+		if r != root {
+			continue
+		}
+		if p == "" || path == p || strings.HasPrefix(path, p+".") || strings.HasPrefix(path, p+"[") {
+			return true
+		}
+	}
+	return false
+}
+
+// appendConcrete models append on slices of any element type when both
+// operands are windows of constant length onto known storage: the result is a
+// fresh array holding the elements in order.
+func (in *Interp) appendConcrete(args []Value, st *State, elemT types.Type, x *ssa.Call) (Value, bool) {
+	var elems []Value
+	for _, a := range args {
+		s, ok := a.(*Slice)
+		if !ok || s.Rope != nil || s.Sym != "" {
+			return nil, false
+		}
+		if s.Nil == bdd.True {
+			continue
+		}
+		n, isc := s.Len.IsConst()
+		if !isc || n > maxArrayLeaves || s.Nil != bdd.False {
+			return nil, false
+		}
+		ri := in.roots[s.Root]
+		if ri == nil {
+			return nil, false
+		}
+		for i := 0; i < int(n); i++ {
+			elems = append(elems, in.loadAt(st, s.Root, ri, elemPath(s.Path, s.Lo+i), elemT))
+		}
+	}
+	if len(elems) > maxArrayLeaves {
+		return nil, false
+	}
+	in.allocN++
+	r := fmt.Sprintf("alloc#%d", in.allocN)
+	in.roots[r] = &rootInfo{}
+	for i, e := range elems {
+		in.storeAt(st, r, in.roots[r], elemPath("", i), elemT, e, bdd.True, x.Pos())
+	}
+	return &Slice{Root: r, Lo: 0, Len: in.C.Const(in.intWidth(), uint64(len(elems))), Nil: bdd.False}, true
 }
